@@ -397,6 +397,42 @@ def r_override(ctx, model):
               explanation="a unit override for the elastic-tensor output is ignored", key="override.ij")
 
 
+def r_override_every_rule(ctx, model):
+    """a unit override is honoured by EVERY scalar rule, also by those whose packaged unit equals their internal unit (the velocities): the values written with
+    {keyword, unit: <another unit of the same dimension>} are the values written without the override times the ratio of the two units, under the same name"""
+    import yaml as _yaml
+    from ..report import REPO
+    rules = _yaml.safe_load((REPO / "cij" / "data" / "output" / "writer_rules.yml").read_text())
+    other = {"GPa": "kbar", "km/s": "m/s", "angstrom^3": "nm^3"}
+    w = model.where(f"{WR}:ResultsWriterRule.write_variable")
+    n = 0
+    for r in rules:
+        if r.get("var_type", "value") != "value" or r.get("unit") not in other:
+            continue
+        kw = r["keywords"][0]
+        alt = other[r["unit"]]
+        for base_name in ("tv", "tp"):
+            try:
+                plain = run_write(ctx, model, base_name, kw)[4]
+            except RaisedV as e_:
+                if e_.exc_name == "AttributeError":
+                    continue            # this interface does not offer the quantity (volumes on the (T, V) grid ...): nothing to override
+                raise
+            over = run_write(ctx, model, base_name, DictV({"keyword": kw, "unit": alt}))[4]
+            n += 1
+            if len(plain) != 1 or len(over) != 1:
+                ctx.check(False, f"{kw} on {base_name} with unit {alt}", w, expected="one file", found=f"{len(plain)} / {len(over)} files", explanation="an entry with a unit override writes no file or several", key=f"override.unit.{kw}.{base_name}")
+                continue
+            a_, b_ = as_sym(plain[0][1].get("df", plain[0][1].get("x"))), as_sym(over[0][1].get("df", over[0][1].get("x")))
+            ratio = U.parse_unit_string(r["unit"]) / U.parse_unit_string(alt)
+            same_name = str(plain[0][1]["outfile_name"]) == str(over[0][1]["outfile_name"])
+            ctx.check(is_zero(b_ - a_ * ratio) and same_name, f"{kw} on {base_name}: unit override {r['unit']} -> {alt}", w, expected=f"the same table times {ratio}, same file name",
+                      found=f"ratio {short(sp.cancel(b_ / a_), 60)}; names {plain[0][1]['outfile_name']} / {over[0][1]['outfile_name']}",
+                      explanation=f"the unit requested for {kw!r} in an output entry is ignored (the table is written in {r['unit']} whatever unit the entry asks for) or changes the file name",
+                      key=f"override.unit.{kw}.{base_name}")
+    ctx.floor("scalar writer rules with a unit override scenario", n, 16)
+
+
 def r_output(ctx, model):
     """write_output pairs 'pressure_base'/'volume_base' with the like-named interface"""
     ref = f"{CALC}.write_output"
@@ -473,6 +509,7 @@ RULES = [
     ("R15.1,3,4,7", "writer-rule registry: unique keywords, fields, placeholders, adiabatic/isothermal consistency, props resolve", r_registry),
     ("R15.2,5", "every keyword and alias on both bases: file names, written value in the documented unit, labels (folded through write_table)", r_write),
     ("R15.6", "user fname / unit overrides", r_override),
+    ("R15.6b", "unit override honoured by every scalar rule (including those whose packaged unit is their internal unit)", r_override_every_rule),
     ("R15.9", "keywords written in one run give the files of separate runs (any order); write_output twice = once", r_sequence),
     ("R15.8", "write_output / write_variables pairing; installed writers drop the four guard rows", r_output),
 ]
